@@ -262,7 +262,7 @@ func TestC06(t *testing.T) {
 	if ev.Thorough() {
 		depth = 8
 	}
-	check(rec, "grouping-random", scale(10000, 150000), func(rt *rapid.T) {
+	check(rec, "grouping-random", scale(10000, 2000000), func(rt *rapid.T) {
 		want := rapid.SampledFrom([]string{"num", "num", "bool", "str", "any"}).Draw(rt, "want")
 		e := gen.Expr(c06Env, depth, want).Draw(rt, "expr")
 		c := &C06Case{Expr: e, Red: gen.Redundant(e).Draw(rt, "red"), Tag: "random"}
